@@ -1,22 +1,27 @@
 ------------------------- MODULE Trace_Registry -------------------------
-(* mem = the registry contents the SPECIFICATION expects (set of ids) within the current call sequence *)
+(* mem = [ids |-> the registry contents the SPECIFICATION expects within the current call sequence,
+          regs |-> id -> [entry, kwargs] as given to the successful register calls of the sequence] *)
 EXTENDS Registry, LibKit
 Clauses(i) ==
   LET e == Ev(i) IN
   IF ~On("C18") THEN {} ELSE
   CASE e.k = "parse"    -> ParseLaw(e)
-    [] e.k = "register" -> RegisterLaw(e) \cup { <<"C18.registry_continuity", AsSet(e.pre_ids) = mem>> }
-    [] e.k = "make"     -> MakeLaw(e) \cup { <<"C18.registry_continuity", AsSet(e.pre_ids) = mem>> }
+    [] e.k = "register" -> RegisterLaw(e) \cup { <<"C18.registry_continuity", AsSet(e.pre_ids) = mem.ids>> }
+    [] e.k = "make"     -> MakeLaw(e, mem.regs) \cup { <<"C18.registry_continuity", AsSet(e.pre_ids) = mem.ids>> }
     [] e.k = "shipped"  -> ShippedLaw(e)
     [] e.k = "shipped_list" -> ShippedListLaw(e)
     [] e.k = "seq_start" -> {}
     [] OTHER -> { <<"MACHINERY.unknown_event_kind", FALSE>> }
+Upd(f, k, v) == [x \in DOMAIN f \cup {k} |-> IF x = k THEN v ELSE f[x]]
 MemNext(i) ==
   LET e == Ev(i) IN
-  CASE e.k = "seq_start" -> AsSet(e.ids)
-    [] e.k = "register" -> IF Parse(e.id_chars).ok /\ e.id \notin mem THEN mem \cup {e.id} ELSE mem
+  CASE e.k = "seq_start" -> [ids |-> AsSet(e.ids), regs |-> << >>]
+    [] e.k = "register" ->
+         IF Parse(e.id_chars).ok /\ e.id \notin mem.ids
+         THEN [ids |-> mem.ids \cup {e.id}, regs |-> Upd(mem.regs, e.id, [entry |-> e.entry, kwargs |-> e.kwargs])]
+         ELSE mem
     [] OTHER -> mem
-Init == LibInit({})
+Init == LibInit([ids |-> {}, regs |-> << >>])
 Next == LibNext(Clauses, MemNext)
 Spec == Init /\ [][Next]_lvars
 =============================================================================
